@@ -137,20 +137,26 @@ PROPS.update({
         "c03_string_many_equals_naive / c03_matrix_many_equals_naive - the modelled run on a certified automaton and the modelled NaiveManyMatcher report "
         "every pattern at exactly the same host positions (both = the occurrence specification). The certificates are evaluated per real automaton; ManyMatcher and "
         "NaiveManyMatcher are compared as sets of (pattern, bindings) incl. the match data on every generated host (strings, matrices, port graphs, "
-        "table domain with six tree strategies).",
+        "table domain with six tree strategies). Port graphs, where the statement holds: c03_portgraph_single_then_many_on_single_root_sets / "
+        "c03_portgraph_many_then_single_on_good_patterns - on automata that use keys of the first index root only (every set of single-root patterns) the "
+        "modelled run and the modelled one-pattern matcher report the same matches of a good pattern, bindings included (a reported match is turned back into an "
+        "embedding, Proofs/PGAgree.v); outside that class refuted (D10).",
         "verified certificates (sound + complete) on the real automaton + Coq proof that run and naive matcher both equal the occurrence specification "
         "(strings) + ManyMatcher vs NaiveManyMatcher differential", ["c03", "pg03", "tab03", "pgm"]),
     "C04": aut_prop("translation_validation",
         "Theorem c04_heuristic_independent_acceptance: two certified automata for the same constraint lists accept the same patterns under the same "
         "valuations; every heuristic answer sequence is enumerated while the number of builds stays <= 24 (quick) / 256 (thorough), random beyond; "
-        "each automaton is certified and all match multisets are compared pairwise.",
+        "each automaton is certified and all match multisets are compared pairwise. Port graphs: refuted in general (c04_portgraph_runs_differ_refuted, D10); "
+        "c04_portgraph_runs_agree_on_single_root_pattern_sets - two certified automata over keys of the first index root (any heuristics, any pattern lists) "
+        "report the same matches of a good pattern, with the same bindings; hypotheses evaluated per dump (pg-srset, pg-cover).",
         "verified certificates on every automaton of every enumerated heuristic answer sequence + pairwise multiset comparison", ["c04", "pg04", "tab03", "pgm"]),
     "C06": aut_prop("translation_validation",
         "Theorem c06_pattern_independent_acceptance (certified automata for pattern lists sharing a constraint list accept it identically); each "
         "pattern compiled alone vs inside the set, a rotated set with renumbering, duplicates; strings / matrices at run level: c06_{string,matrix}_runs_agree. "
         "Identifiers and fallback modes: Model/ManyGlue.v models ManyMatcher::try_from_patterns_with_det_heuristic around the builder and the pattern table; "
         "c06_skip_ids_are_input_positions, c06_fail_returns_first_error, c06_get_pattern_reflects_compiled, c06_n_patterns_counts_compiled; compared with the "
-        "implementation on every table-domain pattern list with unconvertible patterns (glue cases: ids, n_patterns, get_pattern of every position, Ok/Err under Fail).",
+        "implementation on every table-domain pattern list with unconvertible patterns (glue cases: ids, n_patterns, get_pattern of every position, Ok/Err under Fail). "
+        "Port graphs: c06_portgraph_runs_agree_on_single_root_pattern_sets (a good pattern at position i1 of one single-root list and i2 of another is reported alike).",
         "verified certificates + alone-vs-together / permutation differential + Coq model of the identifier / fallback glue", ["c06", "tab06"]),
     "C07": aut_prop("translation_validation",
         "Strings: Theorems c07_string_at_most_once / c07_string_exactly_once - on every automaton that passes wf_check and the unambiguity "
@@ -168,9 +174,13 @@ PROPS.update({
         "the real automaton + multiset comparison with an independent occurrence oracle + differential correspondence", ["c07"]),
     "C09": aut_prop("translation_validation",
         "wf_check (proved to establish every clause of the property, Theorem c09_wf_check_sound / c09_clauses) is evaluated on the dump of every "
-        "automaton built, for all enumerated heuristic answer sequences - all states, not only those a host visits.",
-        "verified structural checker (Coq soundness proof) run on the dump of every real automaton", ["c09", "tab09"]),
-    "C05": {"subs": ["c05", "pg05", "pgm"], "level": "proof", "rule": AUT_RULE + "; for C05 each (pattern, host) pair is one case",
+        "automaton built, for all enumerated heuristic answer sequences - all states, not only those a host visits. The last sentence of the property is also proved of "
+        "the algorithm: Model/Scopes.v models AutomatonBuilder::populate_scopes / compute_scopes and add_pattern's key list; "
+        "c09_populate_scopes_ordered_and_covering (on every transition graph, in any processing order, the scopes are prerequisite-first, repetition-free and contain the "
+        "keys of the state's constraints) and c09_pattern_keys_ordered_and_covering; the model recomputes scopes (as sets) and recorded key lists (exactly) on every dump "
+        "(case fields scopes / mkeys; strings, matrices, table domain here, port graphs under C01-C06).",
+        "verified structural checker (Coq soundness proof) run on the dump of every real automaton + Coq model of the scope computation compared with every dump", ["c09", "tab09"]),
+    "C05": {"subs": ["c05", "pg05", "pgm", "parse"], "level": "proof", "rule": AUT_RULE + "; for C05 each (pattern, host) pair is one case",
         "trusted_base": AUT_TB, "assumptions": AUT_ASSUME, "timeout": 3000,
         "explanation": "Strings and matrices: Theorems c05_{string,matrix}_single_exact / _match_exists_exact / _naive_exact - the modelled SinglePatternMatcher "
                        "reports exactly the occurrences (every reported binding is anchored at an occurrence and binds all constraint keys; every occurrence is "
@@ -181,7 +191,10 @@ PROPS.update({
                        "completeness where it holds, c05_portgraph_single_reports_embeddings_of_good_patterns / _total: for patterns passing pg_good_pattern (single index root, "
                        "the pattern's own walks reach every keyed node) every embedding into a well-formed host is reported - walks commute with embeddings; refuted outside "
                        "that class (c05_portgraph_complete_refuted_*: the known findings D5, D6), where the oracle judges with the known classes; the model's pg_good_pattern is "
-                       "evaluated on the pattern of every miss classified as a known finding (must be 0).",
+                       "evaluated on the pattern of every miss classified as a known finding (must be 0). Text front end (glue in front of the baselines): Model/Parse.v models "
+                       "StringPattern::parse_str and MatrixPattern::parse_str (lines, Unicode white space, $x variables, - holes, the panic on a trailing $); compared through "
+                       "try_to_constraint_vec on random texts (sub-check parse); c05_string_parse_print / c05_string_print_parse / c05_matrix_parse_print (printing and parsing are "
+                       "mutually inverse), c05_string_parse_fails_only_on_trailing_dollar.",
         "technique": "Coq proof on the model of the single-pattern matcher (strings and matrices: exact set of anchors) + differential correspondence with that model + occurrence oracle"},
     "C11": {"subs": ["c11", "pg11", "pgm"], "level": "proof",
         "rule": "random patterns (as for C01) inside sets of 1-4 patterns; each pattern is matched against its own instantiation (variables instantiated "
@@ -218,7 +231,8 @@ PROPS.update({
                        "(matrices: and keys_nn; all evaluated on every dump) the modelled traversal never reaches a panic site and terminates (explicit fuel bound from a weight that "
                        "decreases along the acyclic automaton; port graphs: the candidates of one bind_all are bounded because a root key offers at most one node per (known root, port)), "
                        "for every host. Baselines: c08_{string,matrix,portgraph}_single_total, c08_{string,matrix,portgraph}_naive_total - the modelled get_all_bindings / NaiveManyMatcher terminate "
-                       "without panic on the constraints of every pattern (uses c12_*_terminates for the missing_bindings calls). Component totality theorems (c08_*_partial) for the "
+                       "without panic on the constraints of every pattern (uses c12_*_terminates for the missing_bindings calls). Construction, last stage: c08_populate_scopes_total_partial "
+                       "(the modelled populate_scopes returns - no index panic, explicit fuel bound - on every graph processed parents first). Component totality theorems (c08_*_partial) for the "
                        "toposort and retain_keys. Construction (the builder): panic/timeout exploration of every generated and degenerate case; Ok/Panic status of the "
                        "modelled traversal compared with the implementation on every dumped automaton.",
         "technique": "Coq totality theorems for matching (traversal on certified automata, baseline matchers) + catch_unwind / watchdog exploration of construction over generated and degenerate inputs"},
